@@ -585,6 +585,42 @@ func checkC16(c *Check) {
 		}
 	}
 	headersOwnBacking(c, "C16.R4", R)
+	// objects that belong to a dependency's package-level state (http.DefaultTransport, http.DefaultClient) are
+	// shared by the whole process: own code writes their fields only on a Clone()
+	for _, fn := range P.Funcs {
+		if strings.HasPrefix(pkgPathOf(fn), modPath+"/config/gen/") {
+			continue
+		}
+		for _, b := range fn.Blocks {
+			for _, ins := range b.Instrs {
+				st, ok := ins.(*ssa.Store)
+				if !ok {
+					continue
+				}
+				fa, isF := st.Addr.(*ssa.FieldAddr)
+				if !isF {
+					continue
+				}
+				for _, l := range Leaves(fa.X, leafOpts{noConcat: true}) {
+					l = resolveCell(stripConv(l))
+					if ta, isTA := l.(*ssa.TypeAssert); isTA {
+						l = resolveCell(stripConv(ta.X))
+					}
+					if ex, isE := l.(*ssa.Extract); isE {
+						if ta, isTA := ex.Tuple.(*ssa.TypeAssert); isTA {
+							l = resolveCell(stripConv(ta.X))
+						}
+					}
+					if u, isU := l.(*ssa.UnOp); isU && u.Op == token.MUL {
+						if g, isG := u.X.(*ssa.Global); isG && g.Pkg != nil && !isOwnPath(g.Pkg.Pkg.Path()) {
+							bad++
+							c.Fail("C16.R4", "dependency-global-write/"+fnKey(fn)+"/"+g.Name(), P.Pos(st.Pos()), "a field of "+g.Pkg.Pkg.Path()+"."+g.Name()+" (process-wide state of a dependency) is written in "+fnKey(fn)+" without cloning it first: concurrent checks and background fetches race on it")
+						}
+					}
+				}
+			}
+		}
+	}
 	c.Obl(bad == 0, "C16.R4", "scan", "-", "no per-check handler, HTTP client or generator is stored into shared state", "per-check objects leak into shared state")
 }
 
